@@ -33,7 +33,7 @@ def run(ctx: Context) -> None:
     _infra.move_dimensions_exits(ctx, 'R18.4')
     from .common import adopt_foundations as _adopt
     _adopt(ctx, 'R18.7', ['geometry', 'order'], floor=60)
-    ctx.rule('R18.9', "the piece of the path a cell is intersected with is the one it was handed: the whole path is substituted only where none was given", floor=1)
+    ctx.rule('R18.9', "the piece of the path a cell is intersected with is the one it was handed: the whole path is substituted only where none was given", floor=0)
     with ctx.section('R18.9'):
         from . import infra as _infra189
         _infra189.none_default_discipline(ctx, 'R18.9', ['emsarray.transect.Transect._intersect_polygon'])
@@ -274,8 +274,9 @@ def run(ctx: Context) -> None:
         if len(comps) == 1:
             g0, g1 = comps[0].generators
             dvar, ivar = norm_text(g0.target), norm_text(g1.target)
-            ok = (norm_text(g0.iter).replace(' ', '') in ("range(transect_dataset.coords['depth'].size)", "range(transect_dataset.sizes['depth'])".replace(' ', ''))
-                  or 'depth' in norm_text(g0.iter)) and "'index'" in norm_text(g1.iter) and 'depth' not in norm_text(g1.iter)
+            _mf = ctx.flow(mpc)
+            it0, it1 = norm_text(_mf.resolve(g0.iter)), norm_text(_mf.resolve(g1.iter))      # (the ranges may be made once, before the comprehension)
+            ok = "'depth'" in it0 and "'index'" not in it0 and "'index'" in it1 and "'depth'" not in it1
             elt = norm_text(comps[0].elt)
             ok = ok and f"[{ivar}, 0]" in elt and f"[{ivar}, 1]" in elt and f"[{dvar}][0]" in elt and f"[{dvar}][1]" in elt
         ctx.check('R18.4', ok, "patches are generated depth-major, segment-minor: patch k = (depth k // n, segment k % n), as values.flatten() of (depth, index)", mpc,
